@@ -6,7 +6,9 @@
   modular_vmap (pjax.py:870-879), (iv) Seed rewrites sample/cond/scan and re-binds everything else
   (pjax.py:1327-1399), and — as the code is — (v) the JVP rule of `sample_p` evaluates the keyless
   sampler, i.e. differentiation INLINES the site with a hidden key (pjax.py:440-450), and
-  (vi) `jax.vmap` never consults the batch rule when no argument of the site is batched.
+  (vi) `jax.vmap` never consults the batch rule when no argument of the site is batched, and
+  (vii) a draw inlined by (v) below a `jit` that sits inside a modular_vmap is one trace-time constant
+  shared by all lanes (modular_vmap does not re-stage nested jits), found by the exhaustive depth-3 run.
   Validated against real JAX by exhaustive enumeration to depth 3 on every run (harness).
 -/
 namespace Genjax.Lowering
@@ -58,9 +60,16 @@ def outerOf : List C → List C
   | [] => []
   | c :: rest => if rest.contains .grad then c :: outerOf rest else (if c = .grad then [] else [])
 
+/-- (vii) modular_vmap re-stages scan / cond / switch / fori bodies but not a nested `jit`: a
+    modular_vmap with a `jit` somewhere below it -/
+def mvmapOverJit : List C → Bool
+  | [] => false
+  | c :: rest => (c == .mvmap && rest.contains .jit) || mvmapOverJit rest
+
 def hasUnbatchedMap (pl : List C) (inlined : Bool) : Bool :=
   pl.contains .vmapU ||
-    (inlined && ((outerOf pl).contains .mvmap || (outerOf pl).contains .vmapB))
+    (inlined && ((outerOf pl).contains .mvmap || (outerOf pl).contains .vmapB ||
+                 mvmapOverJit (innerOf pl)))
 
 /-- calling the placement without `seed` -/
 def outcome (cfg : Cfg) (pl : List C) : Out :=
